@@ -203,7 +203,7 @@ class Rec:
         self.raised = False
         self.awaited = set()   # indices of emissions whose result was awaited / yielded
         self.jump = None       # 'break' / 'continue' until the enclosing loop consumes it
-        self.order = []        # ('store'|'emit'|'call', index) in program order
+        self.order = []        # ('store'|'emit'|'call'|'cond', index) in program order
         self.mutated = []      # (text of a mutated base value, number of calls recorded at that moment)
         self.awaited_calls = set()   # indices into calls of opaque calls whose value was awaited / yielded (name_calls mode)
         self.stale = set()     # texts of tests that may not be re-used (a value they mention was mutated since)
@@ -367,7 +367,8 @@ class SymEval:
                     self.assign(r, target.elts[1].value, _sym('REST', value), loop)
             else:
                 for i, t in enumerate(target.elts):
-                    self.assign(r, t.value if isinstance(t, ast.Starred) else t, _index(value, i), loop)
+                    self.assign(r, t.value if isinstance(t, ast.Starred) else t,
+                                _sym('FIRST', value) if i == 0 else _index(value, i), loop)
         elif isinstance(target, ast.Attribute) and isinstance(target.value, ast.Name) and (
                 target.value.id == 'self' or (isinstance(r.env.get(target.value.id), ast.Name) and r.env[target.value.id].id == 'self')):
             r.env['self.' + target.attr] = value
@@ -461,6 +462,7 @@ class SymEval:
                         continue
                     q = q0.copy()
                     q.conds.append((key, outcome))
+                    q.order.append(('cond', len(q.conds) - 1))
                     yield from self.eval_value(q, arm, fn, loop, depth)
             return
         if isinstance(node, ast.Call):
@@ -657,6 +659,7 @@ class SymEval:
                         continue
                     q = q0.copy()
                     q.conds.append((src(t), outcome))
+                    q.order.append(('cond', len(q.conds) - 1))
                     yield from self.block(arm, q, fn, loop, depth)
         elif isinstance(s, ast.Try):
             for q in self.block(s.body, r, fn, loop, depth):
